@@ -850,12 +850,13 @@ theorem NoBind.assign {ts : List Tok} (h : NoBind ts) : ∀ n r', ts ≠ .name n
     rendering at every level (never one that a lower grammar level would take for its own), no `name :=` / `name =`
     at the front when rendered at an operand level, and not a `Starred` -/
 structure Plain (p : Nat → Bool) (e : Expr) : Prop where
-  head : ∀ lvl : Nat, ∃ t r, toks (unparse p e lvl) = t :: r ∧ goodHead lvl t = true
+  head : ∀ lvl : Nat, 1 ≤ lvl → ∃ t r, toks (unparse p e lvl) = t :: r ∧ goodHead lvl t = true
   nobind : ∀ lvl : Nat, 1 ≤ lvl → NoBind (toks (unparse p e lvl))
   ns : isStarred e = false
 
-theorem Plain.ne_nil {p : Nat → Bool} {e : Expr} (h : Plain p e) (lvl : Nat) : toks (unparse p e lvl) ≠ [] := by
-  obtain ⟨t, r, ht, _⟩ := h.head lvl
+theorem Plain.ne_nil {p : Nat → Bool} {e : Expr} (h : Plain p e) (lvl : Nat) (h1 : 1 ≤ lvl) :
+    toks (unparse p e lvl) ≠ [] := by
+  obtain ⟨t, r, ht, _⟩ := h.head lvl h1
   rw [ht]; simp
 
 /-! ## atoms and parentheses -/
@@ -1023,7 +1024,7 @@ theorem contTok_rpar (lvl : Nat) : contTok lvl (.op .rpar) = false := by
 
 /-- every expression of the operator core is `Plain` -/
 theorem plain_of_inFrag (p : Nat → Bool) {e : Expr} (h : inFrag e = true) : Plain p e where
-  head := fun lvl => firstTok p e h lvl
+  head := fun lvl _ => firstTok p e h lvl
   nobind := fun lvl _ => NoBind.of_not_mem (noWalrus p e h lvl) (noAssign p e h lvl)
   ns := inFrag_not_starred h
 
@@ -1031,7 +1032,7 @@ theorem plain_of_inFrag (p : Nat → Bool) {e : Expr} (h : inFrag e = true) : Pl
 theorem plain_of_own (p : Nat → Bool) {e : Expr} {prec : Nat} (hk : kindPrec (kindOf e) = some prec) (hp1 : 1 ≤ prec)
     (hh : ∃ t r, toks (unparse p e prec) = t :: r ∧ goodHead prec t = true)
     (hnb : NoBind (toks (unparse p e prec))) (hns : isStarred e = false) : Plain p e where
-  head := fun lvl => by
+  head := fun lvl _ => by
     rw [unparse_group p e lvl prec hk, toks_groupIf]
     by_cases hg : lvl > prec
     · exact ⟨.op .lpar, _, by rw [if_pos (by simpa using hg)], rfl⟩
@@ -1053,7 +1054,7 @@ theorem rt_of_own (p : Nat → Bool) {e : Expr} {prec : Nat} (hP : Plain p e)
     (hown : ∀ rest, Stop prec rest → Parses (parseAt prec) (toks (unparse p e prec) ++ rest) e rest) :
     RT p e := by
   intro lvl rest h1 h15 hs
-  obtain ⟨t, r, ht, hg⟩ := hP.head prec
+  obtain ⟨t, r, ht, hg⟩ := hP.head prec hp1
   rw [unparse_group p e lvl prec hk, toks_groupIf]
   by_cases hgt : lvl > prec
   · rw [if_pos (by simpa using hgt)]
@@ -1191,7 +1192,7 @@ theorem rt_pow (p : Nat → Bool) (l r : Expr) (hP : Plain p (.binOp l .pow r)) 
   rw [parseAt_14] at h1
   have h2 := ihr 13 rest (by omega) (by omega) hs
   rw [parseAt_13] at h2
-  obtain ⟨t, tr, ht, hg⟩ := hr.head 13
+  obtain ⟨t, tr, ht, hg⟩ := hr.head 13 (by omega)
   rw [ht] at h2
   have h3 := step_factor h2 (by unfold unaryOpAt; split <;> simp_all [goodHead])
   rw [← ht] at h3
@@ -1413,7 +1414,7 @@ theorem rt_ifExp (p : Nat → Bool) (t b o : Expr) (hP : Plain p (.ifExp t b o))
   obtain ⟨n1, hn1⟩ := h1
   obtain ⟨n2, hn2⟩ := h2
   obtain ⟨n3, hn3⟩ := h3
-  obtain ⟨tk, tr, htk, hg⟩ := hb'.head 2
+  obtain ⟨tk, tr, htk, hg⟩ := hb'.head 2 (by omega)
   refine ⟨n1 + n2 + n3 + 1, fun fuel hfu => ?_⟩
   obtain ⟨f, rfl⟩ : ∃ f, fuel = f + 1 := ⟨fuel - 1, by omega⟩
   rw [e1]
@@ -1472,7 +1473,7 @@ theorem cmpRest (p : Nat → Bool) : (cs : List Expr) → (ops : List CmpOp) →
     obtain ⟨n1, hn1⟩ := h1
     obtain ⟨n2, hn2⟩ := cmpRest p cs os (by simpa using hl)
       (fun x hx => hcs x (List.mem_cons_of_mem _ hx)) rest hs
-    obtain ⟨t, tr, ht, hg⟩ := hcf.head 6
+    obtain ⟨t, tr, ht, hg⟩ := hcf.head 6 (by omega)
     refine ⟨n1 + n2 + 1, fun fuel hf => ?_⟩
     obtain ⟨f, rfl⟩ : ∃ f, fuel = f + 1 := ⟨fuel - 1, by omega⟩
     have e1 : toks (unparseCmps p (o :: os) (c :: cs)) ++ rest =
@@ -1507,7 +1508,7 @@ theorem rt_compare (p : Nat → Bool) (l : Expr) (ops : List CmpOp) (cs : List E
   obtain ⟨c, cs', rfl⟩ : ∃ c cs', cs = c :: cs' := by cases cs with | nil => exact absurd rfl hne | cons c cs' => exact ⟨c, cs', rfl⟩
   obtain ⟨o, os, rfl⟩ : ∃ o os, ops = o :: os := by cases ops with | nil => simp at hlen | cons o os => exact ⟨o, os, rfl⟩
   obtain ⟨hc, hcf⟩ := hcs c (List.mem_cons_self ..)
-  obtain ⟨t, tr, ht, hg⟩ := hcf.head 6
+  obtain ⟨t, tr, ht, hg⟩ := hcf.head 6 (by omega)
   have e2 : toks (unparseCmps p (o :: os) (c :: cs')) ++ rest =
       toks (cmpOpOuts o) ++ (toks (unparse p c 6) ++ (toks (unparseCmps p os cs') ++ rest)) := by
     simp [unparseCmps, Prec.CMP]
@@ -1543,7 +1544,7 @@ theorem noStr_rpar (rest : List Tok) : NoStr (.op .rpar :: rest) := by
 theorem atomRT_of_rt (p : Nat → Bool) {e : Expr} {prec : Nat} (hP : Plain p e)
     (hk : kindPrec (kindOf e) = some prec) (hp1 : 1 ≤ prec) (hp : prec < 15) (hrt : RT p e) : AtomRT p e := by
   intro rest _
-  obtain ⟨t, r, ht, hg⟩ := hP.head prec
+  obtain ⟨t, r, ht, hg⟩ := hP.head prec hp1
   rw [unparse_group p e 15 prec hk, toks_groupIf, if_pos (by simpa using hp)]
   have hin := hrt prec (.op .rpar :: rest) hp1 (by omega) (Stop.cons (contTok_rpar _))
   rw [ht] at hin
@@ -1707,7 +1708,7 @@ theorem dictRestRT (p : Nat → Bool) : (is : List DictItem) → GoodItems p is 
     obtain ⟨c, r', hcr, hc, _⟩ := after_value p is rest
     obtain ⟨n1, hn1⟩ := dict_entry p hk hv (c := c) (r' := r') (hc 1)
     obtain ⟨n2, hn2⟩ := dictRestRT p is his rest
-    obtain ⟨t, tr, ht, hg⟩ := hfk.head 1
+    obtain ⟨t, tr, ht, hg⟩ := hfk.head 1 (by omega)
     refine ⟨n1 + n2 + 1, fun fuel hf => ?_⟩
     obtain ⟨f, rfl⟩ : ∃ f, fuel = f + 1 := ⟨fuel - 1, by omega⟩
     obtain ⟨hK, hV⟩ := hn1 f (by omega)
@@ -1762,8 +1763,8 @@ theorem atomRT_dict (p : Nat → Bool) (is : List DictItem) (hg : GoodItems p is
         obtain ⟨c, r', hcr, hc, hcomp⟩ := after_value p is rest
         obtain ⟨n1, hn1⟩ := dict_entry p hk hv (c := c) (r' := r') (hc 1)
         obtain ⟨n2, hn2⟩ := dictRestRT p is his rest
-        obtain ⟨t, tr, ht, hgd⟩ := hfk.head 1
-        have hw := ((hfk.nobind 1 (Nat.le_refl _)).append (hfk.ne_nil 1) (c := .op .colon) (by simp) (by simp)
+        obtain ⟨t, tr, ht, hgd⟩ := hfk.head 1 (by omega)
+        have hw := ((hfk.nobind 1 (Nat.le_refl _)).append (hfk.ne_nil 1 (Nat.le_refl _)) (c := .op .colon) (by simp) (by simp)
           (toks (unparse p v 1) ++ c :: r')).walrus
         have e1 : toks (unparse p (.dict (.mk (some k) v :: is)) 15) ++ rest =
             .op .lbrace :: (toks (unparse p k 1) ++ .op .colon :: (toks (unparse p v 1) ++ c :: r')) := by
